@@ -162,7 +162,7 @@ def annotate(work, programs, dumps, harness_sel=None):
     job = []
     # first pass without contracts to learn the raw field names, then bind and annotate
     for p in programs:
-        cs = C.program_contracts(p, harness_sel.get(p.pid) if harness_sel is not None else None)
+        cs = C.program_contracts(p, harness_sel.get(p.pid, []) if harness_sel is not None else None)
         for tname, recs in cs.items():
             if tname not in dumps:
                 continue
@@ -235,7 +235,7 @@ def inventory_fns(inv):
     return out
 
 
-def build_kani_crates(work, programs, annotated, harness_sel, nshards):
+def build_kani_crates(work, programs, annotated, harness_sel, nshards, plain=None):
     """harness_sel: {pid: [H]}.  returns list of (crate dir, [harness names])"""
     spec = open(os.path.join(VERIF, "spec", "spec.rs")).read()
     progs = [p for p in programs if harness_sel.get(p.pid)]
@@ -270,10 +270,29 @@ def build_kani_crates(work, programs, annotated, harness_sel, nshards):
                     body.append(annotated[t][0] + "\n")
             body.append("    #[cfg(kani)]\n    mod proofs {\n    use super::*;\n")
             body.append(proofs)
-            for h in harness_sel[p.pid]:
+            contract_hs = [h for h in harness_sel[p.pid] if h.expect != "panic"]
+            panic_hs = [h for h in harness_sel[p.pid] if h.expect == "panic"]
+            for h in contract_hs:
                 body.append(h.text())
                 names.append(h.name)
             body.append("    }\n}\n")
+            if panic_hs:
+                # Kani asserts the requires-clause of a contract-carrying function at every call from a plain harness, so an
+                # out-of-range index would "panic" on the contract instead of on the code: the must-panic obligations run on
+                # an UNANNOTATED copy of the same expansion
+                body.append(f"pub mod {p.mod}_plain {{\n    use super::spec::*;\n    use arbitrary_int::*;\n")
+                for s in p.structs:
+                    body.append(s.const_items())
+                body.append(top)
+                for t in [e.name for e in p.enums] + [s.name for s in p.structs]:
+                    if plain and t in plain:
+                        body.append(plain[t][0] + "\n")
+                body.append("    #[cfg(kani)]\n    mod proofs {\n    use super::*;\n")
+                body.append(proofs)
+                for h in panic_hs:
+                    body.append(h.text())
+                    names.append(h.name)
+                body.append("    }\n}\n")
         write(os.path.join(cdir, "src", "lib.rs"), "".join(body))
         out.append((cdir, names))
     return out
